@@ -8,6 +8,7 @@ import (
 	"strings"
 
 	"github.com/grailbio/bigslice"
+	"github.com/grailbio/bigslice/frame"
 	"github.com/grailbio/bigslice/typecheck"
 )
 
@@ -17,10 +18,24 @@ type c18T struct{ X int }
 
 func (c c18T) M() int { return c.X }
 
+// key types registered with only one of the two operations a key column needs
+type c18H struct{ X int }
+type c18L struct{ X int }
+
+func init() {
+	frame.RegisterOps(func(slice []c18H) frame.Ops {
+		return frame.Ops{HashWithSeed: func(i int, seed uint32) uint32 { return uint32(slice[i].X) ^ seed }}
+	})
+	frame.RegisterOps(func(slice []c18L) frame.Ops {
+		return frame.Ops{Less: func(i, j int) bool { return slice[i].X < slice[j].X }}
+	})
+}
+
 var c18types = map[string]reflect.Type{
 	"int": reflect.TypeOf(0), "i64": reflect.TypeOf(int64(0)), "str": reflect.TypeOf(""), "bool": reflect.TypeOf(false),
 	"f64": reflect.TypeOf(float64(0)), "err": reflect.TypeOf((*error)(nil)).Elem(), "S": reflect.TypeOf(c18S{}),
 	"I": reflect.TypeOf((*c18I)(nil)).Elem(), "T": reflect.TypeOf(c18T{}),
+	"H": reflect.TypeOf(c18H{}), "L": reflect.TypeOf(c18L{}),
 }
 
 func c18type(tok string) reflect.Type {
